@@ -752,6 +752,7 @@ pub fn gen_cluster_scenario(rng: &mut rand::rngs::SmallRng, k: &GenKnobs) -> Sce
         jitter_sites,
         hook_seed: rng.gen(),
         real_membership: false,
+        prefill: None,
     };
     let ids: Vec<u8> = cfg.nodes.iter().map(|n| n.id).collect();
     let kss: Vec<String> = (0..rng.gen_range(1..=3)).map(|i| format!("ks{i}")).collect();
@@ -905,6 +906,7 @@ pub fn gen_burst_scenario(rng: &mut rand::rngs::SmallRng) -> Scenario {
         jitter_sites: if rng.gen_bool(0.3) { vec![("poller.handle_modified".to_string(), rng.gen_range(1..60))] } else { vec![] },
         hook_seed: rng.gen(),
         real_membership: false,
+        prefill: None,
     };
     let ids: Vec<u8> = cfg.nodes.iter().map(|n| n.id).collect();
     let writers: Vec<u8> = ids.iter().copied().filter(|_| rng.gen_bool(0.6)).collect();
@@ -1041,6 +1043,7 @@ pub fn gen_real_scenario(rng: &mut rand::rngs::SmallRng) -> Scenario {
         jitter_sites,
         hook_seed: rng.gen(),
         real_membership: true,
+        prefill: None,
     };
     let ids: Vec<u8> = cfg.nodes.iter().map(|n| n.id).collect();
     let kss: Vec<String> = (0..rng.gen_range(1..=2)).map(|i| format!("ks{i}")).collect();
@@ -1103,6 +1106,28 @@ pub fn gen_real_scenario(rng: &mut rand::rngs::SmallRng) -> Scenario {
         events.push(Ev::ClockJump { t: rng.gen_range(0..span), node: *ids.choose(rng).unwrap(), delta_ms: rng.gen_range(-120_000..120_000) });
     }
     events.sort_by_key(|e| e.t());
+    Scenario { cfg, events, closing_seed: rng.gen(), closing_parallel: false, settle_ms: 0, closing_mode: "background".to_string(), probe_direct: false }
+}
+
+/// "Big join": one node holds more documents in one keyspace than a single fetch carries
+/// (50 000); the others start empty and repair from it.
+pub fn gen_big_join_scenario(rng: &mut rand::rngs::SmallRng) -> Scenario {
+    let nodes: Vec<NodeCfg> = (1..=2u8).map(|id| NodeCfg { id, dc: "dc0".into(), skew_ms: 0, storage_faults: vec![], storage_latency_max_ms: 0, storage_scan_latency_max_ms: 0, storage_read_faults: vec![] }).collect();
+    let count = 50_000 + rng.gen_range(1..=40u64);
+    let cfg = ClusterCfg {
+        nodes,
+        tick_ms: 5,
+        latency_ms: (1, 2),
+        net_seed: rng.gen(),
+        base_ms: rng.gen_range(1_000_000_000u64..60_000_000_000),
+        repair_interval_ms: 800,
+        jitter_sites: vec![],
+        hook_seed: rng.gen(),
+        real_membership: false,
+        prefill: Some((1, "big".to_string(), count)),
+    };
+    // a little traffic so that the case is not empty
+    let events = vec![Ev::Op { t: 500, node: 2, spec: OpSpec { kind: "put".to_string(), ks: "small".to_string(), ids: vec![1], level: "None".to_string(), dup: false, empty: false } }];
     Scenario { cfg, events, closing_seed: rng.gen(), closing_parallel: false, settle_ms: 0, closing_mode: "background".to_string(), probe_direct: false }
 }
 
@@ -1222,6 +1247,11 @@ impl Check for C01 {
         }
     }
     fn generate(&self, seed: u64, idx: u64, tier: Tier) -> Value {
+        // one "big join" early in every run (and one in about 1500 cases after that)
+        if idx == 9 || mix(0xB16, idx) % 1_499 == 0 {
+            let mut rng = rng_from(case_seed(seed, idx));
+            return serde_json::to_value(gen_big_join_scenario(&mut rng)).unwrap();
+        }
         // single-node arm: peers skip a keyspace whose advertised change timestamp they have
         // already synced, so every request that changes what a keyspace holds must move it
         if mix(0xFA41, idx) % 8 == 1 {
